@@ -1172,6 +1172,17 @@ func (s *sched) settle() {
 		// released twice or never.  The schedule goes on (the ground truth does
 		// not depend on the gauge).
 		if g := s.gaugeSum(); !s.gaugeOff && (g < float64(truth-pend) || g > float64(truth)) {
+			// like every other verdict: only if it is still so on later
+			// stop-the-world snapshots with no event in between
+			if !s.stillParked(parked, l1) {
+				r.Bucket("limiter_gauge_rechecks", 1)
+				continue
+			}
+			if g2 := s.gaugeSum(); g2 >= float64(truth-pend) && g2 <= float64(truth) {
+				r.Bucket("limiter_gauge_mismatch_not_confirmed", 1)
+				r.Sample(s.witness(map[string]any{"note": "gauge mismatch not confirmed", "gauge_first": g, "gauge_then": g2, "open": truth - pend, "pending": pend}))
+				continue
+			}
 			r.Violation("limiter:active-gauge-differs-from-open-plus-pending",
 				fmt.Sprintf("at a quiescent point the limiter's active-connections gauge is %v, but %d connection(s) are open and %d accept(s) pending", g, truth-pend, pend),
 				s.witness(map[string]any{"gauge": g, "open": truth - pend, "pending": pend}))
@@ -2053,6 +2064,7 @@ func pipelineMonitor(r *vkit.Run) {
 			cancel()
 		}
 	}
+	pipelineTimeoutDirect(r, tlsConf)
 }
 
 func pipelineCase(r *vkit.Run, idx int, proto string, n int, addr string, h *pipeHandler, bursts []int, oneWrite bool) {
@@ -2375,6 +2387,10 @@ func TestCheck(t *testing.T) {
 	r.Require("service_further_connections_not_served_while_stopped_"+flavLC, int64(r.N(40, 140)))
 	r.Require("service_further_connections_not_served_while_stopped_"+flavAddr, int64(r.N(25, 90)))
 	r.Require("service_cases_waiting_connection_served_after_resume", int64(r.N(8, 28)))
+	r.Require("service_pipeline_slot_wait_timeouts_exercised", int64(r.N(5, 14)))
+	r.Require("service_connections_served_after_pipeline_slot_wait_timeouts", int64(r.N(4, 10)))
+	r.Require("pipeline_pipeline_slot_wait_timeouts_exercised", int64(r.N(3, 10)))
+	r.Require("pipeline_connections_served_after_pipeline_slot_wait_timeouts", int64(r.N(2, 6)))
 	r.Require("pipeline_cases_limit_reached", int64(r.N(12, 120)))
 	r.Require("pipeline_answers_received", int64(r.N(250, 2500)))
 }
